@@ -2,7 +2,7 @@
 after every composition (C09; the hash part also serves C07)."""
 import json, random
 from . import refsem
-from .pipeline import Builder, observe
+from .pipeline import Builder, observe, _to_py as b_to_py
 from .codec import canon, exc_name
 from .gen_pipe import gen_stack, POOL
 from .suite_bag import NAMES, compare_model, model_request, decoys
@@ -153,6 +153,29 @@ def run_case(seed, max_layers=5):
             rec['problems'].append({'kind': 'bracketing', 'tree': t, 'msg': f'flat Chain raises {base["construct_err"]} but this bracketing constructs'})
         elif canon(o) != canon(base):
             rec['problems'].append({'kind': 'bracketing', 'tree': t, 'msg': diff_text(base, o)})
+    # the chains the helpers of Chain return are chains of the same layers: a slice continued by the remaining layers, a full slice,
+    # and a pipeline class made with `chained(...)` (also sliced): the same pipeline as Chain(*layers)
+    if base is not None and 'construct_err' not in base and len(flat) >= 2:
+        from connectome.layers.base import chained
+        k = rng.randint(1, len(flat) - 1)
+        derived = [('slice [:]', lambda: b.c.Chain(*objs)[:]),
+                   ('slice [:k] >> rest', lambda: b.c.Chain(*(list(b.c.Chain(*objs)[:k]._layers) + objs[k:]))),
+                   ('slice [:k][:] + rest', lambda: b.c.Chain(b.c.Chain(*objs)[:k][:], *objs[k:]))]
+        if flat[0]['k'] in ('source', 'transform'):
+            cls0 = b.make_class(flat[0])
+            cargs0 = {a: b_to_py(v) for a, v in flat[0].get('cargs', {}).items()}
+            derived += [('chained', lambda: chained(*objs[1:])(cls0)(**cargs0)),
+                        ('chained [:]', lambda: chained(*objs[1:])(cls0)(**cargs0)[:]),
+                        ('chained [:k] + rest', lambda: b.c.Chain(*(list(chained(*objs[1:])(cls0)(**cargs0)[:k]._layers) + objs[k:])))]
+        for what, make in derived:
+            try:
+                o2 = slim(observe(b, make(), NAMES, hashes=True), attrs=False)
+            except Exception as e:
+                rec['problems'].append({'kind': 'bracketing', 'tree': what, 'msg': f'{what} of the flat Chain raises {exc_name(e)}; Chain(*layers) constructs'})
+                continue
+            rec['variants'].append({'tree': what})
+            if canon(o2) != canon(base):
+                rec['problems'].append({'kind': 'bracketing', 'tree': what, 'msg': f'{what}: ' + diff_text(base, o2)})
     # a layer object used twice in one pipeline behaves as an independent copy
     if len(flat) >= 2 and callable_kind(flat[0]):
         idx = [i for i, d in enumerate(flat) if d['k'] in ('transform', 'apply')]
